@@ -22,6 +22,7 @@ EXPLANATION = (
     "'damaged bytes still satisfy the checksum' clause is probabilistic.")
 
 MAGIC = 0x0b0c5ecc
+SWAPPED_MAGIC = int.from_bytes((MAGIC & 0xffffffff).to_bytes(4, 'little'), 'big')      # the magic as an opposite-endian writer stores it
 V120 = 0x010200
 
 def bswap_of(e):
@@ -59,7 +60,9 @@ def run_r09b(ctx, P):
             continue
         native = any(pr == 'eq' and ((ismagic(a) and const_of(b) == MAGIC) or (ismagic(b) and const_of(a) == MAGIC)) for pr, a, b, w, i in T)
         swapped = any(pr == 'eq' and ((bswap_of(a) and ismagic(bswap_of(a)) and const_of(b) == MAGIC) or
-                                      (bswap_of(b) and ismagic(bswap_of(b)) and const_of(a) == MAGIC)) for pr, a, b, w, i in T)
+                                      (bswap_of(b) and ismagic(bswap_of(b)) and const_of(a) == MAGIC) or
+                                      (ismagic(a) and const_of(b) is not None and const_of(b) & 0xffffffff == SWAPPED_MAGIC) or
+                                      (ismagic(b) and const_of(a) is not None and const_of(a) & 0xffffffff == SWAPPED_MAGIC)) for pr, a, b, w, i in T)
         ver0 = any(pr == 'eq' and isver(a) and b == '0' for pr, a, b, w, i in T)
         vernz = any(pr == 'ne' and isver(a) and b == '0' for pr, a, b, w, i in T)
         loc = p.blocks[-1].insts[-1].loc
